@@ -219,6 +219,16 @@ def enum_shard(st, shard, nshards, payload):
                               cls='%s-n%d-%s' % (scope_name, n, rts[fi][0] if rts[fi] else ''))
 
 
+SCOPE_LEGEND = {
+    'Qg-k1': 'Qg-k1 (A g / E g, g a path formula with <= 1 operator)', 'Qg-k2': 'Qg-k2 (A g / E g, g with <= 2 operators: 8648 formulas)',
+    'Qg-tt': 'Qg-tt (two nested temporal operators)', 'Qg-k3': 'Qg-k3 (every 97th body with exactly 3 operators)',
+    'nest2': 'nest2 (quantifier nesting 2)', 'nest3': 'nest3 (224 formulas with quantifier nesting 3)', 'bool2': 'bool2 (Boolean combinations of quantified formulas)',
+    'sib': 'sib (1344 formulas quantifying one non-CTL path formula twice as siblings)',
+    'rep': 'rep (repeated temporal/quantified subformulas under both polarities)',
+    'nary': 'nary (1736 formulas: A/E over 3- and 4-ary and/or of temporal operands)',
+    'ctx': 'ctx (79680 formulas Q g, g a context of <= 2 operators over {p,q,SLOT} with SLOT at least twice x every 1-operator path formula)',
+    'ctxq': 'ctxq (23240 formulas Q1 ctx[Q2 h]: a repeated QUANTIFIED subformula)'}
+
 def run(ctx):
     from hypothesis import strategies as hs
     ctx.rule = ('S(n) as in C01.  Formula scopes: Qg-k = {A g, E g : g an LTL-style path formula '
@@ -230,23 +240,13 @@ def run(ctx):
                 'Oracle: R-STAR.  Non-trivial = >= 1 temporal operator and (some quantifier body is not '
                 'CTL-shaped or quantifier nesting >= 2).  Route histogram in classes.')
     if ctx.thorough:
-        scopes = [(1, 'Qg-k2', 1), (2, 'Qg-k2', 1), (1, 'nest2', 1), (2, 'nest2', 1),
-                  (2, 'bool2', 1), (3, 'Qg-k1', 16), (3, 'nest2', 64), (4, 'Qg-k1', 8009),
-                  (3, 'Qg-tt', 7), (3, 'Qg-k2', 211), (4, 'Qg-tt', 40009),
-                  (2, 'Qg-k3', 1), (3, 'Qg-k3', 211), (2, 'nest3', 1), (3, 'nest3', 101),
-                  (1, 'sib', 1), (2, 'sib', 2), (3, 'sib', 199), (2, 'rep', 4), (3, 'rep', 997),
-                  (2, 'nary', 2), (3, 'nary', 199),
-                  (1, 'ctx', 1), (2, 'ctx/11', 4), (1, 'ctxq', 1), (2, 'ctxq/5', 4), (3, 'ctxq/97', 1801)]
-        ctx.scopes = ['S(1)+S(2) x Qg-k2 (8648 formulas)', 'S(1)+S(2) x nest2', 'S(2) x bool2',
-                      'every 16th of S(3) x Qg-k1', 'every 64th of S(3) x nest2',
-                      'every 8009th of S(4) x Qg-k1', 'every 7th of S(3) x Qg-tt (two nested temporal operators)',
-                      'every 211th of S(3) x Qg-k2', 'every 40009th of S(4) x Qg-tt',
-                      'S(2) and every 211th of S(3) x Qg-k3 (every 97th body with exactly 3 operators)',
-                      'S(2) and every 101st of S(3) x nest3 (224 formulas with quantifier nesting 3)',
-                      'S(1), every 2nd of S(2), every 199th of S(3) x sib (1344 formulas quantifying one non-CTL path formula twice as siblings)',
-                      'every 4th of S(2), every 997th of S(3) x rep (repeated temporal/quantified subformulas under both polarities)',
-                      'every 2nd of S(2), every 199th of S(3) x nary (1736 formulas: A/E over 3- and 4-ary and/or of temporal operands)',
-                      'S(1) x ctx (79680 formulas Q g, g a context of <= 2 operators over {p,q,SLOT} with SLOT at least twice x every 1-operator path formula), every 4th of S(2) x every 11th of ctx; S(1), every 4th of S(2) x every 5th, every 1801st of S(3) x every 97th of ctxq (23240 formulas Q1 ctx[Q2 h]: a repeated QUANTIFIED subformula)']
+        scopes = [(1, 'Qg-k2', 1), (2, 'Qg-k2', 3), (1, 'nest2', 1), (2, 'nest2', 2),
+                  (2, 'bool2', 2), (3, 'Qg-k1', 48), (3, 'nest2', 192), (4, 'Qg-k1', 24001),
+                  (3, 'Qg-tt', 21), (3, 'Qg-k2', 631), (4, 'Qg-tt', 120011),
+                  (2, 'Qg-k3', 3), (3, 'Qg-k3', 631), (2, 'nest3', 3), (3, 'nest3', 301),
+                  (1, 'sib', 1), (2, 'sib', 6), (3, 'sib', 599), (2, 'rep', 12), (3, 'rep', 2999),
+                  (2, 'nary', 6), (3, 'nary', 599),
+                  (1, 'ctx/2', 1), (2, 'ctx/33', 4), (1, 'ctxq', 1), (2, 'ctxq/15', 4), (3, 'ctxq/97', 5401)]
     else:
         scopes = [(1, 'Qg-k2', 1), (2, 'Qg-k1', 1), (2, 'Qg-k2', 48), (1, 'nest2', 1),
                   (2, 'nest2', 24), (2, 'bool2', 12), (3, 'Qg-k1', 401), (4, 'Qg-k1', 240011),
@@ -254,16 +254,7 @@ def run(ctx):
                   (2, 'sib/2', 36), (3, 'sib/2', 5501), (2, 'rep', 72), (3, 'rep', 11003),
                   (2, 'nary/8', 48), (3, 'nary/8', 7001),
                   (1, 'ctx/8', 1), (1, 'ctxq/4', 1), (2, 'ctxq/41', 24)]
-        ctx.scopes = ['S(1) x Qg-k2', 'S(2) x Qg-k1', 'every 48th of S(2) x Qg-k2', 'S(1) x nest2',
-                      'every 24th of S(2) x nest2', 'every 12th of S(2) x bool2',
-                      'every 401st of S(3) and every 240011th of S(4) x Qg-k1',
-                      'every 701st of S(3) x Qg-tt (two nested temporal operators)',
-                      'every 24th of S(2) and every 3001st of S(3) x Qg-k3 (every 97th body with exactly 3 operators)',
-                      'every 12th of S(2) and every 2003rd of S(3) x nest3 (quantifier nesting 3)',
-                      'every 36th of S(2), every 5501st of S(3) x every 2nd of sib (1344 formulas quantifying one non-CTL path formula twice as siblings)',
-                      'every 72nd of S(2), every 11003rd of S(3) x rep (repeated subformulas under both polarities)',
-                      'every 48th of S(2), every 7001st of S(3) x every 8th of nary (1736 formulas: A/E over 3- and 4-ary and/or of temporal operands)',
-                      'S(1) x every 8th of ctx (79680 formulas Q g, g a context of <= 2 operators over {p,q,SLOT} with SLOT at least twice x every 1-operator path formula); S(1) x every 4th and every 24th of S(2) x every 41st of ctxq (23240 formulas Q1 ctx[Q2 h]: a repeated QUANTIFIED subformula)']
+    ctx.scopes = core.describe_scopes(scopes, SCOPE_LEGEND)
     ctx.exhaustive = True
     ctx.assumptions = ['reference semantics vp/ref.py (R-STAR) is the trusted base',
                        'atoms are p,q: exactness under atom names that collide with the '
